@@ -63,6 +63,16 @@ def parseDeltas : Nat → List String → Option (List (Addr × Denom × Int))
     pure ((ab, bytesToString db, xi) :: r)
   | _, _ => none
 
+/-- `n` pairs (raw trace, denomination), then the rest of the line -/
+def parseHashes : Nat → List String → Option (List (String × Denom) × List String)
+  | 0, rest => some ([], rest)
+  | k+1, a :: d :: rest => do
+    let ab ← unhex a
+    let db ← unhex d
+    let (t, r) ← parseHashes k rest
+    pure ((bytesToString ab, bytesToString db) :: t, r)
+  | _, _ => none
+
 def applyDeltas (b : Addr → Denom → Int) : List (Addr × Denom × Int) → Addr → Denom → Int
   | [] => b
   | (a, d, x) :: rest => applyDeltas (addBal b a d x) rest
@@ -177,22 +187,44 @@ def step (st : St) (line : String) : St × String :=
         | some p =>
           ({ st with s := { st.s with evm := setContract st.s.evm p.contract { kind := .nocode, bals := fun _ => 0, supply := 0 } } }, "ok")
     | none => (st, "bad-op")
-  | "recv" :: _data :: dec :: amt :: rcv :: den :: iack :: k :: rest =>
-    match parseOptInt amt, parseOptAddr rcv, unhex den, parseAck iack, k.toNat? with
-    | some amount, some receiver, some denb, some ack, some kn =>
-      match parseDeltas kn rest with
+  | "recv" :: pkt :: dec :: amt :: rcv :: dnm :: hn :: rest0 =>
+    -- pkt = seq,srcPort,srcChan,dstPort,dstChan,data ; dnm = data.Denom as decoded ; then the sha256 naming of the
+    -- raw traces the model may ask for (table computed by the harness with ibc-go's DenomTrace.IBCDenom)
+    match pkt.splitOn ",", parseOptInt amt, parseOptAddr rcv, unhex dnm, hn.toNat? with
+    | [_, sp, sc, dp, dc, _], some amount, some receiver, some dnmb, some hnn =>
+      match parseHashes hnn rest0 with
       | none => (st, "bad-op")
-      | some ds =>
-        let v : View := { decodeOk := dec == "1", amount := amount, receiver := receiver, denom := bytesToString denb }
-        let inner : Inner EvmSt Unit := { ack := fun _ _ => ack, effect := fun s _ => { s with bal := applyDeltas s.bal ds } }
-        let E := concreteEvm (evmAddr st.s.modAddr)
-        let pairBefore := (st.s.denomMap v.denom).bind st.s.pairs
-        match onRecv true E (fun _ => v) inner st.s () with
-        | .ok r =>
-          let (committed, s') := coreCommit st.s r
-          ({ st with s := s' }, "ack=" ++ ackStr r.ack ++ " com=" ++ ackStr committed ++ " ev=" ++ evStr r.ev ++ obs s' pairBefore v)
-        | .err _ => (st, "err")
-        | .panic _ => (st, "panic")
+      | some (tbl, rest1) =>
+        match rest1 with
+        | iack :: k :: rest =>
+          match parseAck iack, k.toNat? with
+          | some ack, some kn =>
+            match parseDeltas kn rest with
+            | none => (st, "bad-op")
+            | some ds =>
+              let H : String → Denom := fun raw => (tbl.lookup raw).getD ("?unhashed:" ++ raw)
+              let f : Fields := { srcPort := sp, srcChan := sc, dstPort := dp, dstChan := dc, denom := bytesToString dnmb }
+              let v : View := { decodeOk := dec == "1", amount := amount, receiver := receiver, denom := hookDenom H f }
+              let inner : Inner EvmSt Unit := { ack := fun _ _ => ack, effect := fun s _ => { s with bal := applyDeltas s.bal ds } }
+              let E := concreteEvm (evmAddr st.s.modAddr)
+              let pairBefore := (st.s.denomMap v.denom).bind st.s.pairs
+              -- the denomination the transfer application credited, as transcribed (`creditedDenom`), confirmed by its
+              -- observed bank effect ("?" when the receiver's balance of that denomination did not grow)
+              let cd := creditedDenom H f
+              let cred :=
+                if !ack.success then "-"
+                else match receiver with
+                  | some r => if ds.any (fun e => e.1 == r && e.2.1 == cd && e.2.2 > 0) then hex (stringToBytes cd) else "?"
+                  | none => "?"
+              match onRecv true E (fun _ => v) inner st.s () with
+              | .ok r =>
+                let (committed, s') := coreCommit st.s r
+                ({ st with s := s' }, "ack=" ++ ackStr r.ack ++ " com=" ++ ackStr committed ++ " ev=" ++ evStr r.ev ++ obs s' pairBefore v
+                    ++ " cred=" ++ cred)
+              | .err _ => (st, "err")
+              | .panic _ => (st, "panic")
+          | _, _ => (st, "bad-op")
+        | _ => (st, "bad-op")
     | _, _, _, _, _ => (st, "bad-op")
   | "cb" :: kind :: _pkt :: _ack :: ie :: k :: rest =>
     -- OnAcknowledgementPacket / OnTimeoutPacket: the wrapped application's result (error?, bank effect) arrives on the line
